@@ -306,6 +306,7 @@ class CallMixin:
                 o = st.old
                 tmp = o.copy()
                 tmp.locals = {**{k: v for k, v in st.locals.items() if v is not None}, **{k: v for k, v in o.locals.items() if v is not None}}
+                tmp.old = o
                 tmp.axd = st.axd
                 tmp.pc = st.pc
                 tmp.pcd = st.pcd
